@@ -62,6 +62,16 @@ def followup(stage, lines, model, checked, release, tier, rng):
                 for _ in range(reps):
                     L.append("@impl rnglog " + op)
         rng.shuffle(L)      # a mixed sequence of randomized and deterministic operations of all sets
+        # freshness across threads: the same randomized request on 300 newly spawned threads (more than any 8-bit thread
+        # id or per-thread generator table would distinguish) must give 300 different keys / signatures
+        nthr = 300 if tier == "quick" else 1200
+        for ln, ans in zip(lines, checked):
+            if not ans.startswith("ok "):
+                continue
+            s = ln.split("::")[1]
+            pk, sk = K.keys_of(ans)
+            L.append("@impl freshthreads %d sign::%s::keypair none real" % (nthr, s))
+            L.append("@impl freshthreads %d sign::%s::signature %s %s 1 real" % (nthr, s, K.hx(b"fresh"), sk))
         return L
     if stage == 2:
         # replay each logged draw as a scripted tape: the model (and the code) must reproduce the logged output
@@ -100,6 +110,12 @@ def violated_all(lines, model, checked, release):
                 out.append((i, "%s build: %s requested RNG bytes %s, the specification prescribes %s" % (prof, l.split()[2], lens, want)))
             if prof == "checked":
                 groups.setdefault(l, []).append((h[3], res))
+    for i, l in enumerate(lines):
+        if l.startswith("@impl freshthreads "):
+            n = l.split()[2]
+            for prof, ans in (("checked", checked), ("wrapping", release)):
+                if ans[i] != "ok n=%s distinct=%s faults=0" % (n, n):
+                    out.append((i, "%s build: %s on %s fresh threads: %s (every call must draw fresh randomness)" % (prof, l.split()[3], n, ans[i][:60])))
     for l, rs in groups.items():
         draws = [d for d, _ in rs]
         outs = [o for _, o in rs]
